@@ -189,6 +189,10 @@ def generate(seed, tier, index, focus):
             if from_client:
                 steps.append({"op": "send_client", "c": rng.randrange(8), "kind": rng.choice(CLIENT_SEND), "device": rng.choice(NAMES),
                               "seed": rng.randrange(1 << 30), "style": rand_style(rng), "value": rng.choice(["Never", "Also", "Only"])})
+                if rng.random() < 0.2:
+                    # attributes the protocol does not know (a newer protocol version, a chatty client): ignored, whatever their names
+                    steps[-1]["extra_attrs"] = [[nm, rng.choice(["1", "true", "", "x"])] for nm in
+                                                rng.sample(["hints", "origin", "from_device", "from_client", "sender", "children", "tag", "_x"], rng.randint(1, 2))]
             else:
                 steps.append({"op": "send_device", "d": rng.randrange(6), "kind": rng.choice(DEVICE_SEND + ["setBLOBVector"] * 3),
                               "device": rng.choice(NAMES), "seed": rng.randrange(1 << 30)})
@@ -546,6 +550,11 @@ def execute_level2(scen):
                         spec = make_spec(random.Random(0), "enableBLOB", st["device"], st["value"])
                     else:
                         spec = make_spec(random.Random(st["seed"]), st["kind"], st["device"], st.get("value"))
+                        have = {k for k, _ in spec["attrs"]}
+                        for nm, val in st.get("extra_attrs", []):
+                            if nm not in have:
+                                spec["attrs"].append([nm, val])
+                                chk.probe("client_message_with_unknown_attributes")
                     sim.do(p.send, spell(spec, st["style"]).encode("latin1"))
                 elif op == "send_device":
                     if not devices:
